@@ -566,6 +566,11 @@ def replay(case, rec):
         for k in range(40):
             check_typed_copy(core, case['version'], case['level'], rec, gen.rng_for(k, 'replay'))
         return
+    if case.get('kind') == 'cross-delimiter-copy':
+        from hl7apy import core
+        for k in range(20):
+            check_cross_delimiter_copy(core, case['version'], case['level'], rec, gen.rng_for(k, 'replay'))
+        return
     if case.get('kind') == 'group-copy':
         from hl7apy import core
         for k in range(8):
@@ -584,6 +589,8 @@ def floors(tier, m):
     if m['counters'].get('typed_copies_compared', 0) < 200:
         out.append('typed leaves copied: %s' % m['counters'].get('typed_copies_compared'))
     c = m['counters']
+    if c.get('cross_delimiter_copies_compared', 0) < 100 and not m['violation_counts']:
+        out.append('copies between messages with different delimiters: %s' % c.get('cross_delimiter_copies_compared'))
     if c.get('encoding_comparisons', 0) < 20000:
         out.append('fewer than 20000 lock-step comparisons')
     if m['distinct_nontrivial'] < 2000:
